@@ -1,5 +1,5 @@
 SPECIFICATION Spec
-CONSTANTS MaxMv = 5  MaxAnB = 4  MaxSub = 4  ExportMv = 4  ExportAnB = 3  ExportSub = 2
+CONSTANTS MaxMv = 5  MaxAnB = 4  MaxSub = 4  ExportMv = 4  ExportAnB = 4  ExportSub = 2
 INVARIANT MvOK
 INVARIANT TplOK
 INVARIANT AnBInv
